@@ -344,6 +344,34 @@ def _check_to(cell, ctx, fail, v, idx, subs, rows, exact, be, mp_, mom, tol, sa,
                     not opcheck.vec_equiv(sysb, brows[j], exact[i], tol * 4, R.scale_of(exact[i])):
                 fail("roundtrip", f"{variant} -> {cell['target']} -> back gives {opcheck.fmt(cb)} != {opcheck.fmt(exact[i])}")
                 return
+    # (7) Awkward arrays and records let a stored field be replaced in place (v["pt"] = v.pt * c): a conversion after the
+    # replacement is the conversion of a freshly assembled array with the new column, whatever was read before
+    if be in ("awkward", "record"):
+        import copy
+
+        w = copy.copy(v)
+        f0 = ak.fields(w)[0]
+        try:
+            _ = getattr(w, mname)(**kwargs)
+            _ = (w.x, w.rho, w.phi)
+            w[f0] = w[f0] * 1.5
+            r2 = getattr(w, mname)(**kwargs)
+            cols = {f: w[f] for f in ak.fields(w)}
+            name = ak.to_layout(w).purelist_parameter("__record__")
+            fresh = ak.zip(cols, with_name=name, behavior=w.behavior) if be == "awkward" else ak.Record(cols, with_name=name, behavior=w.behavior)
+            r3 = getattr(fresh, mname)(**kwargs)
+            got2, got3 = _read(be, r2), _read(be, r3)
+        except ZeroDivisionError:
+            got2 = got3 = None
+        except Exception as e:  # noqa: BLE001
+            fail("exception", f"conversion after replacing field {f0!r} in place raised {type(e).__name__}: {e!s:.300}")
+            return
+        ctx.evaluation()
+        if got2 is not None and repr(got2) != repr(got3):
+            fail("stale_after_field_replacement", f"after reading coordinates and then replacing the stored field {f0!r} in place "
+                 f"({f0} * 1.5), {mname}() gives {str(got2[1][:2])[:200]} but the same call on a freshly assembled array with the "
+                 f"same fields gives {str(got3[1][:2])[:200]}")
+            return
     if target != sa:
         for i in idx:
             ctx.nontrivial(key=[cell["id"], [float(x) for x in rows[i]], sorted(kwargs)], sample={"stored": [float(x) for x in rows[i]], "kwargs": sorted(kwargs)})
